@@ -626,7 +626,24 @@ func initIterableFiniteBase() {
 				accumulator = newValue
 			}
 
-			return accumulator, value.Undefined
+			if !accumulator.IsUndefined() {
+				return accumulator, value.Undefined
+			}
+
+			// there is nothing to combine, like `first` and `last` of an empty iterable
+			selfInspect, err := Inspect(vm, self)
+			if !err.IsUndefined() {
+				return value.Undefined, err
+			}
+
+			err = value.Ref(
+				value.Errorf(
+					value.IterableNotFoundErrorClass,
+					"cannot reduce `%s`, it has no elements",
+					selfInspect.AsString().String(),
+				),
+			)
+			return value.Undefined, err
 		},
 		DefWithParameters(1),
 	)
